@@ -177,8 +177,8 @@ def permFor (m : Map) (finalOld : List Nat) : List Nat :=
 
 /-- one greedy simulation for a total of `T` landings: the oracle of every call (reserve first), or `none` if a call
     fails or landings are left when a growth discards the tombstones -/
-def extendOrcs (c : Cfg) (m : Map) (items : List Entry) (finalOld : List Nat) (T : Nat) : Option (List Orc × Map) :=
-  let hint := if m.len = 0 then items.length else (items.length + 1) / 2
+def extendOrcs (c : Cfg) (m : Map) (items : List Entry) (hint0 : Nat) (finalOld : List Nat) (T : Nat) : Option (List Orc × Map) :=
+  let hint := if m.len = 0 then hint0 else hint0 / 2 + hint0 % 2
   let o0 : Orc := { hits := T, perm := permFor m finalOld }
   match Map.reserve c m hint o0 with
   | .error _ => none
@@ -198,20 +198,20 @@ def extendOrcs (c : Cfg) (m : Map) (items : List Entry) (finalOld : List Nat) (T
           else go m' rest 0 (o :: acc)
     go m1 items (T - used0) [o0]
 
-def resolveExtend (c : Cfg) (m : Map) (items : List Entry) (finalOld : List Nat) (glObs mbObs : Option Nat) :
+def resolveExtend (c : Cfg) (m : Map) (items : List Entry) (hint : Nat) (finalOld : List Nat) (glObs mbObs : Option Nat) :
     Except Fault (Map × Out) :=
   let run (T : Nat) : Option (Except Fault (Map × Out)) :=
-    match extendOrcs c m items finalOld T with
+    match extendOrcs c m items hint finalOld T with
     | none => none
     | some (orcs, _) =>
       -- the definition the theorems are about, on the resolved oracles (indexed by the pairs still to come)
-      some (Map.extend c m items (fun _ n => orcs.getD (items.length - n) {}))
+      some (Map.extend c m items hint (fun _ n => orcs.getD (items.length - n) {}))
   let good (r : Except Fault (Map × Out)) : Bool :=
     match r, glObs with
     | .ok (m', _), some g => m'.main.gl == g && (match mbObs with | some b => m'.main.buckets == b | none => true)
     | .ok _, none => true
     | .error _, _ => false
-  let first := (run 0).getD (Map.extend c m items (fun m' _ => { perm := permFor m' finalOld }))
+  let first := (run 0).getD (Map.extend c m items hint (fun m' _ => { perm := permFor m' finalOld }))
   if good first then first else
   let guess : Nat := match first, glObs with
     | .ok (m', _), some g => g - m'.main.gl
@@ -331,7 +331,7 @@ def replayLine (s : DState) (op : String) (mid : Nat) (args : List String) (orc 
       | some st =>
         fin (resolveBoth (fun e h => Map.entryChain c (raw == "1") lh m k kid st { o with empt := e, hits := h })
               glObs ((field? obs "mb").bind (·.toNat?)) (chainCands (c.R + 2) 0 st))
-  | "extend", [items] => needMap fun m =>
+  | "extend", [items, hint] => nat hint fun hint => needMap fun m =>
       let pe (x : String) : Option Entry :=
         match x.splitOn ":" with
         | [k, kid, v, vid] => do
@@ -340,7 +340,7 @@ def replayLine (s : DState) (op : String) (mid : Nat) (args : List String) (orc 
       match (if items == "-" then some [] else (items.splitOn ",").mapM pe) with
       | none => .bad "extend items"
       | some es =>
-        fin (resolveExtend c m es (fieldList orc "oldorder") glObs ((field? obs "mb").bind (·.toNat?)))
+        fin (resolveExtend c m es hint (fieldList orc "oldorder") glObs ((field? obs "mb").bind (·.toNat?)))
   | "finsert", [k, kid, v, vid, fuse] =>
     nat k fun k => nat kid fun kid => nat v fun v => nat vid fun vid => nat fuse fun fuse => needMap fun m =>
       finF (resolveHitsF (fun h => Map.insertFused c m ⟨k, kid, v, vid⟩ fuse { o with hits := h }) glObs (c.R + 2))
